@@ -31,9 +31,17 @@ NOTES = {
  "C19-j": "caught after generator classes could be flavours derived from the class that declares the priority",
  "C20-j": "NOT caught: needs an ACL rule that names two generators but carries one %cant_delete flag ('interface * %generator_names=a,b'); production tagging writes one name per line and the compiler unites names and flags together, so no text annet produces has that shape (the exclusive pass itself is now part of C20's jobs)",
 }
+NOTES.update({
+ "C01-k": "focused mini-round (flat-stream vendors): caught by the flat-stream oracle added in round 5",
+ "C01-l": "focused mini-round: NOT caught - the change is in juniper's own %diff_logic for 'inactive:' rows, reached only through the shipped juniper rulebook with deactivated blocks; C01's rule language has the generic logics, and its juniper-rulebook cases are annotation changes only",
+ "C01-m": "focused mini-round (RouterOS): NOT caught - it changes how a removal is SPELLED ('remove [ find ... ]' losing a second 'add ' inside an attribute); C01 judges the menu each RouterOS command runs in and does not execute the queries",
+ "C01-n": "focused mini-round (RouterOS): caught by the menu-stream oracle (count of command lines vs commands of the patch tree)",
+ "C01-o": "focused mini-round (aruba): caught by execution on the simulator (aruba joined C01 in round 5)",
+ "C01-p": "focused mini-round (aruba): caught after the line sequence of block-structured vendors was replayed against the device's own notion of the current block (a header enters, the exit word leaves one level)",
+})
 rows = {}
 for d in sorted(os.listdir("seeded")):
-    if not re.fullmatch(r"C\d\d-[ij]", d):
+    if not re.fullmatch(r"C\d\d-[i-p]", d):
         continue
     m = json.load(open(os.path.join("seeded", d, "meta.json")))
     cr = m.get("check_result", {})
@@ -44,7 +52,7 @@ for d in sorted(os.listdir("seeded")):
                                                    cr.get("violation_kind", "") if caught else "", NOTES.get(d, ""))
 p = "seeded/README.md"
 lines = open(p).read().split("\n")
-lines = [l for l in lines if not re.match(r"\| C\d\d-[ij] \|", l)]
+lines = [l for l in lines if not re.match(r"\| C\d\d-[i-p] \|", l)]
 table = [l for l in lines if re.match(r"\| C\d\d-[a-z] \|", l)] + list(rows.values())
 table.sort(key=lambda l: l.split("|")[1].strip())
 first = next(i for i, l in enumerate(lines) if re.match(r"\| C\d\d-[a-z] \|", l))
